@@ -31,12 +31,27 @@ struct growing_circular_array {
   T* get(std::size_t idx, std::memory_order order) {
     // (1) - this acquire-load synchronizes-with the release-store (2)
     auto capacitiy = _capacity.load(std::memory_order_acquire);
-    return get_entry(idx, capacitiy).load(order);
+    for (;;) {
+      // (3) - this acquire-load synchronizes-with the release-store (4)
+      (void)order;
+      T* value = get_entry(idx, capacitiy).load(std::memory_order_acquire);
+      // The array may have grown since we read the capacity. grow() moves the entries to their new positions and
+      // afterwards the old positions are reused for _other_ indexes, i.e., an entry that was located with an
+      // outdated capacity may already belong to a different index. So we have to re-check the capacity.
+      const auto current_capacity = _capacity.load(std::memory_order_acquire);
+      if (current_capacity == capacitiy) {
+        return value;
+      }
+      capacitiy = current_capacity;
+    }
   }
 
   void put(std::size_t idx, T* value, std::memory_order order) {
     auto capacitiy = _capacity.load(std::memory_order_relaxed);
-    get_entry(idx, capacitiy).store(value, order);
+    // (4) - a reader that sees this value must also see the capacity it was stored with (see get), therefore this
+    //       has to be at least a release-store
+    (void)order;
+    get_entry(idx, capacitiy).store(value, std::memory_order_release);
   }
 
   bool can_grow() { return capacity() < max_capacity; }
